@@ -9,7 +9,9 @@ from . import smtcommon
 
 ID = "C06"
 RULE = ("specifications of small blocks (bounded-exhaustive over a 15-instruction vocabulary: all blocks of length <= 2 in quick, "
-        "<= 3 plus a seeded sample of length 4-5 in thorough; plus Hypothesis-generated blocks with init_progr_len <= 7) x encoder "
+        "<= 3 plus a seeded sample of length 4-5 in thorough; plus Hypothesis-generated blocks with init_progr_len <= 7; plus a family of "
+        "blocks with store->load / load->store / store->store / hash dependences on symbolic addresses, with and without slack in "
+        "the length bound, under fixed option sets covering both memory encodings with and without position bounds) x encoder "
         "option sets drawn from {term encoding int/stack_vars/uninterpreted_uf/uninterpreted_int} x empty x push-basic x "
         "pop-uninterpreted x {l_vars,direct} x order-bounds x order-conflicts x at-most x pushed-once x no-output-before-pop x "
         "direct-inequalities x criterion; the emitted .smt2 text is parsed by z3 (helper process) after a declared-once check, ALL "
@@ -122,6 +124,10 @@ def shard(blocks, n_random, sd, per_block_opts):
             counter[0] += 1
             if counter[0] <= len(blocks) * per_block_opts:
                 instrs = blocks[(counter[0] - 1) // per_block_opts]
+                if isinstance(instrs, tuple):          # (block, fixed option set)
+                    if (counter[0] - 1) % per_block_opts:
+                        return
+                    instrs, argv = instrs
             else:
                 instrs = rnd_block
             for rec in eng.analyze(instrs, argv, want_oms=(k % 4 == 0)):
@@ -164,13 +170,14 @@ def main(tier, seed_):
     if tier == "quick":
         from .c07 import slack_blocks
         rng = random.Random(seed_)
-        blocks = smtcommon.small_blocks(2) + rng.sample(smtcommon.small_blocks(3), 400) + slack_blocks()
+        deps = smtcommon.dependence_blocks()
+        blocks = smtcommon.small_blocks(2) + rng.sample(smtcommon.small_blocks(3), 400) + slack_blocks() + rng.sample(deps, 200)
         per, nrand = 3, 160
     else:
         from .c07 import slack_blocks
         blocks = smtcommon.small_blocks(3) + slack_blocks()
         rng = random.Random(seed_)
-        blocks += rng.sample(smtcommon.small_blocks(4), 3000)
+        blocks += rng.sample(smtcommon.small_blocks(4), 3000) + smtcommon.dependence_blocks()
         per, nrand = 6, 3000
     jobs = [(shard, (ch, nrand // runner.NPROC, runner.shard_seed(seed_, i, "c06"), per)) for i, ch in enumerate(runner.chunks(blocks, runner.NPROC))]
     res = runner.run_shards(_dispatch, jobs, stall_s=900)
